@@ -18,11 +18,13 @@
 (*   "npol":n}                                                              *)
 (***************************************************************************)
 EXTENDS KeyKeeper, Json, IOUtils
+ZeroInc(g) == 0
 TModeOf(r) == "audit"
 
 Rec == ndJsonDeserialize(IOEnv.TRACE)
-VARIABLES l, prev, viol, runid, polls, firstBad
-tvars == <<vars, l, prev, viol, runid, polls, firstBad>>
+VARIABLES l, prev, viol, runid, polls, firstBad,
+          cum     \* the interception in force: last redirect-policy update per endpoint since the process started
+tvars == <<vars, l, prev, viol, runid, polls, firstBad, cum>>
 
 \* "answered consistently and without errors for one complete poll"
 Clean(r) == /\ r.status = "ok" /\ r.acquire \in {"-", "ok"} /\ r.attest \in {"-", "ok"} /\ ~r.mid /\ ~r.notify
@@ -32,37 +34,40 @@ AfterNotify(p, n) == IF n /\ p.state.k \in {"disabled", "Unknown"} THEN [p EXCEP
 
 PolOf(r) == [e \in Eps |-> IF r.pol[e] = "none" THEN "unset" ELSE r.pol[e]]
 
+CumAfter(r) == [e \in Eps |-> IF r.pol[e] = "none" THEN cum[e] ELSE r.pol[e]]
+
 Failing(r, p) ==
-  {n \in {"Rules", "Key", "KeyValue", "State", "Policy", "FailedPollChangesNothing"} :
+  {n \in {"Rules", "Key", "KeyValue", "State", "Policy", "PolicyInForce", "FailedPollChangesNothing"} :
      CASE n = "Rules"    -> Clean(r) /\ ~C09_RulesOn(r.obs, r.doc)
        [] n = "Key"      -> Clean(r) /\ ~C09_KeyOn(r.obs, r.doc, r.latched)
        [] n = "KeyValue" -> Clean(r) /\ r.obs.key # "none" /\ ~r.obs.keyOk
        [] n = "State"    -> Clean(r) /\ ~C09_StateOn(r.obs, r.doc)
        [] n = "Policy"   -> Clean(r) /\ ~C09_PolicyOn(PolOf(r), r.obs.state # p.state, r.doc)
+       [] n = "PolicyInForce" -> Clean(r) /\ ~C09_PolicyInForceOn(CumAfter(r), r.doc)
        [] n = "FailedPollChangesNothing" ->
             r.status \in {"fail", "invalid"} /\ ~(r.obs = AfterNotify(p, r.notify) /\ r.npol = 0)}
 
 TInit ==
   /\ host = 0 /\ fs = 0 /\ pc = "-" /\ loc = 0 /\ mem = 0 /\ policy = 0 /\ act = 0 /\ gh = 0
-  /\ l = 1 /\ prev = 0 /\ viol = {} /\ runid = 0 /\ polls = 0 /\ firstBad = 0
+  /\ l = 1 /\ prev = 0 /\ viol = {} /\ runid = 0 /\ polls = 0 /\ firstBad = 0 /\ cum = PolicyInit
 
 Verdict == PrintT(<<"VERDICT", ToJson([run |-> runid, viol |-> viol, polls |-> polls, firstBad |-> firstBad])>>)
 
 TRun == /\ l <= Len(Rec) /\ Rec[l].e = "run"
-        /\ runid' = Rec[l].id /\ prev' = Rec[l].obs /\ viol' = {} /\ polls' = 0 /\ firstBad' = 0
+        /\ runid' = Rec[l].id /\ prev' = Rec[l].obs /\ viol' = {} /\ polls' = 0 /\ firstBad' = 0 /\ cum' = PolicyInit
         /\ l' = l + 1 /\ UNCHANGED vars
 
 TEnd == /\ l <= Len(Rec) /\ Rec[l].e = "end"
         /\ Verdict
-        /\ l' = l + 1 /\ UNCHANGED <<vars, prev, viol, runid, polls, firstBad>>
+        /\ l' = l + 1 /\ UNCHANGED <<vars, prev, viol, runid, polls, firstBad, cum>>
 
 TCrash == /\ l <= Len(Rec) /\ Rec[l].e = "crash"
-          /\ prev' = Rec[l].obs
+          /\ prev' = Rec[l].obs /\ cum' = PolicyInit
           /\ l' = l + 1 /\ UNCHANGED <<vars, viol, runid, polls, firstBad>>
 
 TPoll == /\ l <= Len(Rec) /\ Rec[l].e = "poll"
          /\ viol' = viol \cup Failing(Rec[l], prev)
-         /\ prev' = Rec[l].obs /\ polls' = polls + 1
+         /\ prev' = Rec[l].obs /\ polls' = polls + 1 /\ cum' = CumAfter(Rec[l])
          /\ firstBad' = IF firstBad = 0 /\ Failing(Rec[l], prev) # {} THEN polls + 1 ELSE firstBad
          /\ l' = l + 1 /\ UNCHANGED <<vars, runid>>
 
